@@ -68,11 +68,17 @@ func c02Scenarios(tier string) []*Scenario {
 				b = 1
 			}
 			scs = append(scs, &Scenario{
-				Name:   fmt.Sprintf("dag%d/%s", n, graphString(g)),
-				Desc:   "one job with this acyclic graph; every order in which running tasks finish, every schedule up to the bound",
-				Opts:   func() WorldOpts { return WorldOpts{Defs: defsOf(PipeCfg{Conc: 1, QL: -1, Graph: g})} },
-				Setup:  func(w *World) { w.SpawnDriver(Op{Kind: "S", Pipeline: "p"}) },
-				Static: func() []Violation { return checkSortAndCycle(g) },
+				Name:  fmt.Sprintf("dag%d/%s", n, graphString(g)),
+				Desc:  "one job with this acyclic graph; every order in which running tasks finish, every schedule up to the bound",
+				Opts:  func() WorldOpts { return WorldOpts{Defs: defsOf(PipeCfg{Conc: 1, QL: -1, Graph: g})} },
+				Setup: func(w *World) { w.SpawnDriver(Op{Kind: "S", Pipeline: "p"}) },
+				Static: func() []Violation {
+					vs := checkSortAndCycle(g)
+					for _, dg := range withDuplicateDeps(g) {
+						vs = append(vs, checkSortAndCycle(dg)...)
+					}
+					return vs
+				},
 				Check: func(w *World, x *Exec) []Violation {
 					vs := allMonitors(w, false)
 					if j := w.dump().Job(1); j == nil || !plainSuccess(j) {
@@ -84,6 +90,14 @@ func c02Scenarios(tier string) []*Scenario {
 				NoTick: true, Bound: intp(b),
 			})
 		}
+	}
+	// the failure / allow_failure family (same scenarios as C08; here the run-once / dependencies-first monitor decides)
+	for _, sc := range c08Scenarios(tier) {
+		if tier != "thorough" && !strings.HasPrefix(sc.Name, "dag1/") && !strings.HasPrefix(sc.Name, "dag2/") {
+			continue
+		}
+		sc.Name = "outcomes/" + sc.Name
+		scs = append(scs, sc)
 	}
 	return scs
 }
